@@ -79,7 +79,8 @@ func specMs(d time.Duration) float64 { return ConvertDurationToMs(d) }
 //@ modifies nothing
 
 //@ func TracerouteSerial
-//@ safety C03
+//@ safety C03 C04 C05
+//@ modifies ghost clock, ghost sendN, ghost sendLog, ghost sendClock
 //@ ghost sendN Int
 //@ ghost sendLog (Array Int Int)
 //@ ghost sendClock (Array Int Int)
@@ -110,7 +111,7 @@ func specMs(d time.Duration) float64 { return ConvertDurationToMs(d) }
 // transition rule of the merge (C07): the table depends on the accepted replies only through this rule.
 
 //@ func TracerouteParallel
-//@ safety C03
+//@ safety C03 C04 C05
 //@ monitor resultsMu protects results
 //@ inv[C01.slot]            forall(k, 0, len(results), results[k] != nil ==> int(results[k].TTL) == k && int(p.MinTTL) <= k)
 //@ requires[pre.nonnil]       t != nil && ctx != nil
@@ -125,7 +126,7 @@ func specMs(d time.Duration) float64 { return ConvertDurationToMs(d) }
 //@ ensures[C06.par.pace]      forall(k, old(sendN)+1, sendN, sel(sendClock, k) >= sel(sendClock, k-1) + int(p.SendDelay))
 
 //@ func TracerouteParallel$1
-//@ safety C07
+//@ safety C07 C04 C05
 //@ requires[pre.probe]     probe != nil && p.MinTTL <= probe.TTL && int(probe.TTL) < len(results)
 //@ ensures[C07.rule]       results[probe.TTL] == ite(atlock(results[probe.TTL]) == nil, probe, ite(!atlock(results[probe.TTL]).IsDest && probe.IsDest, probe, atlock(results[probe.TTL])))
 //@ ensures[C07.others]     forall(k, 0, len(results), k != int(probe.TTL) ==> results[k] == atlock(results[k]))
@@ -145,7 +146,7 @@ func specMs(d time.Duration) float64 { return ConvertDurationToMs(d) }
 //@ loop 1 invariant[C06.last] sendN > old(sendN) ==> now() >= sel(sendClock, sendN-1) + int(p.SendDelay)
 
 //@ func TracerouteParallel$3
-//@ safety C09
+//@ safety C09 C04 C05 C07
 //@ requires[pre.valid]        p.MinTTL >= 1 && p.MinTTL <= p.MaxTTL && t != nil && groupCtx != nil && len(results) == int(p.MaxTTL)+1 && !held(resultsMu)
 //@ ensures[C14.unlocked]      !held(resultsMu)
 //@ modifies elemtype(*ProbeResponse), resultsMu, ghost clock
